@@ -397,6 +397,8 @@ def explore(prog, case, stats=None, max_paths=50000, budget_s=600, max_viol=2):
         dec = work.pop()
         ex = Exec(prog, M, dec, stats)
         ex.world = World()
+        ex.range_limit = case.get('range_limit', 64)
+        ex.max_steps = max(ex.max_steps, 400 * ex.range_limit)
         ex.attr_entries, ex.attr_matrices = [], {}
         try:
             r = run_case(H, ex, case)
